@@ -18,7 +18,7 @@ RULE = ("post-conditions on the real LogarithmicUnit.level and Level.quantify wi
         " Plus a user unit recalibrated between readings and single Level objects quantified twice (first under a coarse decimal precision, then after an in-place adjustment)."
         " Half of the coarse-first readings use a reference nobody has used before, so the coarse reading is the first thing that ever happens to that logarithmic unit.")
 ASSUMPTIONS = [
-    "k = 2 for references whose dimension is a potential, current, pressure or speed (root-power), 1 for power, energy, "
+    "k = 2 for references whose dimension is a potential, current, pressure, speed, field strength or a charge density per length / area / volume (root-power), 1 for power, energy, "
     "intensity and frequency references - taken from the physics, not from ROOT_POWER_DIMENSIONS",
     "tolerance 1e-9 relative + 1e-9 absolute on the level; when the quantity is written in another unit than the "
     "reference, the conversion tolerance (1e-5 per degree + size interval) is propagated through the logarithm",
@@ -93,6 +93,11 @@ def _run(ctx):
         ("20 uPa", 20 * (P["micro"] * U["pascal"]), 2, [U["pascal"], P["milli"] * U["pascal"], U["pounds per square inch"], U["newton"] / U["meter"] ** 2]),
         ("1 A", 1 * U["ampere"], 2, [U["ampere"], P["milli"] * U["ampere"]]),
         ("1 ft/s", 1 * (U["foot"] / U["second"]), 2, [U["meter"] / U["second"], U["mile"] / U["hour"], U["knot"]]),
+        # the other field (root-power) quantities: field strength and the three charge densities
+        ("1 V/m", 1 * (U["volt"] / U["meter"]), 2, [U["volt"] / U["meter"], P["kilo"] * U["volt"] / U["meter"], U["volt"] / (P["centi"] * U["meter"])]),
+        ("1 uC/m", 1 * ((P["micro"] * U["coulomb"]) / U["meter"]), 2, [U["coulomb"] / U["meter"], (P["milli"] * U["coulomb"]) / (P["centi"] * U["meter"])]),
+        ("1 C/m2", 1 * (U["coulomb"] / U["meter"] ** 2), 2, [U["coulomb"] / U["meter"] ** 2, (P["micro"] * U["coulomb"]) / (P["centi"] * U["meter"]) ** 2]),
+        ("3 C/m3", 3 * (U["coulomb"] / U["meter"] ** 3), 2, [U["coulomb"] / U["meter"] ** 3, (P["milli"] * U["coulomb"]) / (P["centi"] * U["meter"]) ** 3, U["coulomb"] / U["liter"] if "liter" in U else U["coulomb"] / U["meter"] ** 3]),
     ]
     state = {"expect": None}
 
